@@ -101,6 +101,7 @@ package getoptions
 
 //@ func newUnknownCLIOption
 //@   props C03 C08 C19
+//@   allocates option.Option, []string
 //@   modifies
 //@   ensures unk.fresh {C08}: fresh(result) && result.Name == name && result.Unknown && result.Verbatim == verbatim && result.OptType == option.StringRepeatType
 
@@ -117,7 +118,8 @@ package getoptions
 //@     && (forall k string :: (k in n.ChildOptions) ==> OptOK(n.ChildOptions[k]))
 //@     && (forall k string :: (k in n.ChildCommands) ==> n.ChildCommands[k] != nil)
 //@     && (forall i int :: 0 <= i && i < len(n.SuggestionFns) ==> n.SuggestionFns[i] != nil)
-//@ spec func TreeOK() bool = forall n *programTree :: allocated(n) && n != nil ==> NodeOK(n)
+//@ spec func UnkOK() bool = forall n *programTree :: n != nil ==> (forall i int :: 0 <= i && i < len(n.UnknownOptions) ==> n.UnknownOptions[i] != nil)
+//@ spec func TreeOK() bool = forall n *programTree :: n != nil ==> NodeOK(n)
 //
 // User-supplied completion callbacks: opaque, assumed not to touch the parser's state.
 //@ func type ArgCompletionsFn(target, previousArgs, partialCompletion)
@@ -174,14 +176,21 @@ package getoptions
 //@ func parseCLIArgs
 //@   props C19
 //@   requires parse.tree: tree != nil && TreeOK()
+//@   requires parse.unk: UnkOK()
+//@   allocates option.Option, []string, sliceiterator.Iterator
+//@   modifies programTree.ChildText, programTree.UnknownOptions, option.Option.Called, option.Option.UsedAlias, option.Option.MapKeysToLower,
+//@     cell(bool), cell(string), cell(int), cell(float64), cell([]string), cell([]int), cell([]float64), allmaps(map[string]string)
 //@   ensures parse.node {C03,C10}: result0 != nil && allocated(result0)
 //@   ensures parse.tree.kept: TreeOK()
+//@   ensures parse.unk.kept: UnkOK()
+//@   ensures parse.nocomp {C17}: completionMode == "" ==> len(result1) == 0
 //@   loop ARGS_LOOP
 //@     modifies iterator.idx, programTree.ChildText, programTree.UnknownOptions, option.Option.Called, option.Option.UsedAlias, option.Option.MapKeysToLower,
 //@       cell(bool), cell(string), cell(int), cell(float64), cell([]string), cell([]int), cell([]float64), allmaps(map[string]string)
 //@     invariant it.ok: iterator != nil && iterator.data == &args && 0 - 1 <= iterator.idx && iterator.idx <= len(args)
 //@     invariant args.same: eqseq(args, old(args))
 //@     invariant node.ok: currentProgramNode != nil && allocated(currentProgramNode)
+//@     invariant unk.ok: UnkOK()
 //@     decreases len(args) - iterator.idx
 //@     step term.stops {C04,C03}: Parsing() && Tok() == "--" ==> $exit && currentProgramNode == N0()
 //@       && isconcat_tail(N0().ChildText, old_iter(N0().ChildText), args, I0() + 1)
@@ -210,6 +219,7 @@ package getoptions
 //@       cell(bool), cell(string), cell(int), cell(float64), cell([]string), cell([]int), cell([]float64), allmaps(map[string]string)
 //@     invariant pairs.idx: 0 <= iterator.idx && iterator.idx < len(args) && old_loop(iterator.idx) <= iterator.idx
 //@     invariant pairs.args: eqseq(args, old(args))
+//@     invariant pairs.unkok: UnkOK()
 //@     invariant pairs.token: token == args[old_loop(iterator.idx)]
 //@     invariant pairs.once {C03}: (!tokenPassed ==> identical(currentProgramNode.ChildText, old_loop(currentProgramNode.ChildText)))
 //@       && (tokenPassed ==> isappend1(currentProgramNode.ChildText, old_loop(currentProgramNode.ChildText), args[old_loop(iterator.idx)]))
@@ -288,3 +298,106 @@ package getoptions
 //@           || args[old_iter(iterator.idx) + 1] == "--" || !Accepts(cOpt.OptType, args[old_iter(iterator.idx) + 1]))
 //@   loop "for k, v := range currentProgramNode.ChildCommands"
 //@     invariant cmds.scanned: forall q string :: (q in $seen) ==> q != args[iterator.idx]
+
+// ---- Parse / Dispatch -------------------------------------------------------------------------
+//
+// Observable events are modelled as ghost state: text written to Writer ($out) and to the completion
+// writer ($compout), calls of the exit hook ($exits, $exitcode) and calls of user command functions.
+//@ ghost $out string
+//@ ghost $compout string
+//@ ghost $out_other string
+//@ ghost $exits int
+//@ ghost $exitcode int
+//@ ghost $cmdcalls int
+//@ ghost $cmdfn ref
+//@ ghost $cmdctx ref
+//@ ghost $cmdview ref
+//@ ghost $cmdviewfinal ref
+//@ ghost $cmdargs []string
+//@ ghost $cmdresult error
+
+// A user command function: may do anything to the program's state; the call itself is recorded.
+//@ func type CommandFn(ctx, opt, args)
+//@   props C10 C11
+//@   ensures cmd.event {C10,C11}: $cmdcalls == old($cmdcalls) + 1 && $cmdfn == $fn && $cmdctx == ctx && $cmdview == old(opt.programTree)
+//@     && $cmdviewfinal == old(opt.finalNode) && identical($cmdargs, args) && $cmdresult == result
+//@ end
+
+//@ spec func Missing(o *option.Option) bool = o.IsRequired && !o.Called
+//@ spec func HelpCalled(g *GetOpt) bool = g.finalNode.HelpCommandName != "" && (g.finalNode.HelpCommandName in g.programTree.ChildOptions)
+//@     && g.programTree.ChildOptions[g.finalNode.HelpCommandName].Called
+// The fixed rule for which missing required option is reported (C20): the one under the smallest table key.
+//@ spec func MissingAt(m map[string]*option.Option, k string) bool = (k in m) && Missing(m[k])
+//@ spec func FirstMissing(m map[string]*option.Option, k string) bool = MissingAt(m, k) && (forall k2 string :: MissingAt(m, k2) ==> k <= k2)
+
+//@ func checkRequired
+//@   props C11 C20 C19
+//@   requires creq.tbl: forall k string :: (k in options) ==> options[k] != nil
+//@   modifies
+//@   ensures creq.none {C11}: (result == nil) == (forall k string :: !MissingAt(options, k))
+//@   ensures creq.wraps {C11}: result != nil ==> erris(result, ErrorParsing)
+//@   ensures creq.which {C11,C20}: result != nil ==> (forall k string :: FirstMissing(options, k) ==> errmsg(result) == errmsg(ErrorParsing) ++ ReqMsg(options[k]))
+//@   loop "for name := range options"
+//@     invariant keys.sound: forall i int :: 0 <= i && i < len(names) ==> (names[i] in $seen) && (names[i] in options)
+//@     invariant keys.complete: forall q string :: (q in $seen) ==> inseq(q, names)
+//@   loop "for _, name := range names"
+//@     invariant scan.none: forall i int :: 0 <= i && i <= $idx ==> !Missing(options[names[i]])
+
+//@ func (*GetOpt).Called
+//@   props C06 C11 C19
+//@   requires gopt != nil && gopt.programTree != nil && NodeOK(gopt.programTree)
+//@   modifies
+//@   ensures called.exact {C06,C11}: result == (name != "" && (name in gopt.programTree.ChildOptions) && gopt.programTree.ChildOptions[name].Called)
+
+//@ func (*GetOpt).CalledAs
+//@   props C06 C05 C19
+//@   requires gopt != nil && gopt.programTree != nil && NodeOK(gopt.programTree)
+//@   modifies
+//@   ensures calledas.exact {C06,C05}: result == ite(name != "" && (name in gopt.programTree.ChildOptions), gopt.programTree.ChildOptions[name].UsedAlias, "")
+
+//@ func (*GetOpt).Parse
+//@   props C19
+//@   requires parse.gopt: gopt != nil && gopt.programTree != nil && TreeOK() && UnkOK()
+//@   modifies gopt.finalNode, programTree.ChildText, programTree.UnknownOptions, option.Option.Called, option.Option.UsedAlias, option.Option.MapKeysToLower,
+//@     cell(bool), cell(string), cell(int), cell(float64), cell([]string), cell([]int), cell([]float64), allmaps(map[string]string),
+//@     $out, $compout, $out_other, $exits, $exitcode
+//@   ensures parse.failnil {C19}: result1 != nil ==> result0 == nil
+//@   ensures parse.final {C03,C10}: getenv("COMP_LINE") == "" ==> gopt.finalNode != nil && allocated(gopt.finalNode)
+//@   ensures parse.remaining {C03}: getenv("COMP_LINE") == "" && result1 == nil ==> identical(result0, gopt.finalNode.ChildText)
+//@   ensures parse.unknown.reported {C08}: getenv("COMP_LINE") == "" && result1 == nil ==> !(len(gopt.finalNode.UnknownOptions) > 0 && gopt.finalNode.unknownMode == Fail)
+//@   ensures parse.required {C11}: getenv("COMP_LINE") == "" && result1 == nil && gopt.finalNode.Parent == nil && !HelpCalled(gopt)
+//@     ==> (forall k string :: !MissingAt(gopt.finalNode.ChildOptions, k))
+//@   ensures parse.completion.exit {C17}: getenv("COMP_LINE") != "" ==> $exits == old($exits) + 1 && $exitcode == 124 && result0 == nil && result1 == nil
+//@   ensures parse.tree.kept: TreeOK() && UnkOK()
+//@   loop "for _, option := range node.UnknownOptions"
+//@     invariant unk.failfirst {C08}: gopt.finalNode.unknownMode == Fail ==> $idx == 0 - 1
+//@     step unk.fail {C08,C20}: gopt.finalNode.unknownMode == Fail ==> $returned && result0 == nil && $idx == 0
+//@       && errmsg(result1) == "Unknown option '" ++ node.UnknownOptions[$idx].Name ++ "'"
+//@     step unk.warn {C08,C20}: gopt.finalNode.unknownMode == Warn ==> !$exit && $out == old_iter($out) ++ "WARNING: Unknown option '" ++ node.UnknownOptions[$idx].Name ++ "'" ++ "\n"
+//@     step unk.pass {C08}: gopt.finalNode.unknownMode == Pass ==> !$exit && $out == old_iter($out)
+
+//@ func (*GetOpt).Dispatch
+//@   props C10 C11 C19
+//@   requires disp.gopt: gopt != nil && gopt.programTree != nil && gopt.finalNode != nil && TreeOK()
+//@   ensures disp.help {C11}: old(HelpCalled(gopt)) ==> result == ErrorHelpCalled && $cmdcalls == old($cmdcalls) && $out == old($out) ++ helptext(old(gopt.finalNode))
+//@   ensures disp.required {C11}: !old(HelpCalled(gopt)) && old(exists k string :: MissingAt(gopt.finalNode.ChildOptions, k))
+//@     ==> erris(result, ErrorParsing) && $cmdcalls == old($cmdcalls) && $out == old($out)
+//@   ensures disp.call {C10}: !old(HelpCalled(gopt)) && old(forall k string :: !MissingAt(gopt.finalNode.ChildOptions, k)) && old(gopt.finalNode.CommandFn) != nil
+//@     ==> $cmdcalls == old($cmdcalls) + 1 && $cmdfn == old(gopt.finalNode.CommandFn) && $cmdctx == ctx && $cmdview == old(gopt.finalNode)
+//@       && $cmdviewfinal == old(gopt.finalNode) && identical($cmdargs, remaining) && result == $cmdresult
+//@   ensures disp.nofn {C10}: !old(HelpCalled(gopt)) && old(forall k string :: !MissingAt(gopt.finalNode.ChildOptions, k)) && old(gopt.finalNode.CommandFn) == nil
+//@     ==> $cmdcalls == old($cmdcalls)
+
+// The help text of a node in the current definition state (result of helpOutput with the default sections).
+//@ func helpOutput
+//@   props C11 C18 C19
+//@   trusted
+//@   requires node != nil
+//@   modifies
+//@   ensures len(sections) == 0 ==> result == helptext(node)
+
+//@ func (*GetOpt).Help
+//@   props C11 C18 C19
+//@   requires gopt != nil && gopt.programTree != nil
+//@   modifies
+//@   ensures len(sections) == 0 ==> result == helptext(ite(gopt.finalNode != nil, gopt.finalNode, gopt.programTree))
